@@ -1,0 +1,26 @@
+//go:build verif
+// +build verif
+
+// Synchronous entry point used by the verification harness under /verif (build tag "verif"):
+// the penalty path of the staking module (doPenalize -> takePenalty -> StateDB.UpdateValidator) on a caller-supplied state.
+// Nothing here is compiled into a normal build.
+
+package staking
+
+import (
+	"math/big"
+
+	"github.com/youchainhq/go-youchain/core/state"
+	"github.com/youchainhq/go-youchain/core/types"
+	"github.com/youchainhq/go-youchain/params"
+)
+
+// VerifDoPenalize runs doPenalize exactly as inactivitySlashing / the double-sign handlers do.
+func VerifDoPenalize(config *params.YouParams, inactive bool, db *state.StateDB, header *types.Header, val *state.Validator, amount *big.Int) *big.Int {
+	typ := EvidenceTypeDoubleSignV5
+	if inactive {
+		typ = EvidenceTypeInactive
+	}
+	total, _, _ := doPenalize(config, typ, db, header, val, new(big.Int).Set(amount), header.Number.Uint64())
+	return total
+}
